@@ -177,6 +177,9 @@ def check_map(ctx, Canon, aliases, preferred, rng, steps):
         # cyclic maps name no variable at all; the statement quantifies over chains, many-to-one maps and self-maps only
         ctx.count('cyclic_maps_not_in_scope')
         return
+    aliases_late = {'Wl': 'Znew', 'Wl2': 'Wl'} if (len(aliases) + len(preferred)) % 3 == 0 and 'Wl' not in aliases else {}
+    aliases = dict(aliases, **aliases_late)
+    case['aliases_with_late'] = aliases
     A = aliased_class(Canon, aliases, preferred)
     spellings = {v: [v] + [a for a in aliases if a not in VARS and resolve(aliases, a) == v] for v in VARS}
     # constructor keywords through aliases
@@ -246,6 +249,20 @@ def check_map(ctx, Canon, aliases, preferred, rng, steps):
         if extra:
             ctx.violation('alias-extra-storage', f'after {desc} the aliased model has extra entries {sorted(extra)}', case)
             return
+    # ---- an alias declared for a variable that only comes into being later (add_variable after construction) ------------
+    if 'Wl' in aliases_late:
+        r = [do(lambda: m.add_variable('Znew', 2.0)), do(lambda: twin.add_variable('Znew', 2.0))]
+        steps_late = [(lambda o, nm: o.__setitem__(nm, 7.5)), (lambda o, nm: o.__setitem__((nm, 2001), 3.0)), (lambda o, nm: setattr(o, nm, [1.0] * 6)),
+                      (lambda o, nm: o.replace_values(**{nm: 4.25})), (lambda o, nm: float(o[nm][2])), (lambda o, nm: float(getattr(o, nm)[3]))]
+        for k, f in enumerate(steps_late):
+            ra = do(lambda: f(m, 'Wl' if k % 2 == 0 else 'Wl2'))
+            rb = do(lambda: f(twin, 'Znew'))
+            ctx.count('twin_steps_compared')
+            d = snap.diff(model_state(m), model_state(twin))
+            extra = set(m.__dict__) - set(twin.__dict__) - {'aliases', 'preferred_names'}
+            if ra != rb or d or extra:
+                ctx.violation('alias-operation-state', f'alias declared for a variable added after construction: step {k} through the alias -> {ra}, canonical -> {rb}; differences {d[:4]}; extra entries {sorted(extra)}', case)
+                return
     # ---- preferences edited on the instance: ambiguity is (also) rejected at export ----------------------
     # (`preferred_names` copies PREFERRED_NAMES "initially" - the export's own error message - so it may be edited later)
     for v in VARS:
